@@ -51,6 +51,18 @@ def _history(rnd2, dec, stats, mk_iface, mmap, top, ghosts=None, mk_map=None, **
             stats["refused_interfaces_kept_driving"] = stats.get("refused_interfaces_kept_driving", 0) + 1
 
 
+def _dup_after(rnd2, dec, stats, mk_iface, mmap, **kw):
+    """after an accepted add(): the add() of ANOTHER interface object carrying the same memory map is
+    refused ("already a window") and must leave the decoder driving the interface that was accepted"""
+    if rnd2.random() < .12:
+        dup = mk_iface()
+        dup.memory_map = mmap
+        try:
+            dec.add(dup, name="dup", **kw)
+        except ValueError:
+            stats["refused_duplicate_after_accept"] = stats.get("refused_duplicate_after_accept", 0) + 1
+
+
 def run_csr(case):
     rnd = lib.rng_for(case["seed"], case["idx"], 606)
     rnd2 = lib.rng_for(case["seed"], case["idx"], 616)      # history variations, own stream
@@ -80,6 +92,7 @@ def run_csr(case):
                 dec.align_to(rnd.randint(0, 4))
                 dec.add(sb, name=f"s{i}")
             subs.append(sb)
+            _dup_after(rnd2, dec, stats, lambda: csr.Interface(addr_width=saw, data_width=dw, path=(f"dup{i}",)), sb.memory_map)
         except ValueError:
             stats["refused_adds"] += 1
     wins = {id(w): (s, e) for w, n, (s, e, r) in dec.bus.memory_map.windows()}
@@ -182,6 +195,8 @@ def run_wb(case):
                 dec.add(sb, sparse=sparse, name=f"s{i}", addr=(rnd.randrange(1 << maw_dec) >> unit) << unit)
                 stats["explicit"] += 1
             subs.append((sb, sparse, sf, maw))
+            _dup_after(rnd2, dec, stats, lambda: wishbone.Interface(addr_width=saw, data_width=sdw, granularity=sg, features=sf, path=(f"dup{i}",)),
+                       sb.memory_map, sparse=sparse)
             stats["sparse"] += int(sparse)
             if sf - feats or ({"lock", "cti", "bte"} & feats) - sf:
                 stats["feature_mismatch"] += 1
